@@ -9,7 +9,6 @@ import (
 	"math"
 	"math/big"
 	"os"
-	"os/exec"
 	"path/filepath"
 	"regexp"
 	"sort"
@@ -75,6 +74,9 @@ type c20Input struct {
 	CloseMs    int          `json:"close_ms,omitempty"`
 	// sim
 	Race bool `json:"race,omitempty"`
+	// perform (forced performs, in virtual ms) / resave (the second plan)
+	Performs []c20Inc  `json:"performs,omitempty"`
+	Plan2    *c20Canon `json:"plan2,omitempty"`
 	// transmit (concurrent stress of the transmit loader)
 	Rounds    int `json:"rounds,omitempty"`
 	K         int `json:"k,omitempty"`
@@ -223,16 +225,16 @@ func c20RunExpect(in c20Input) c20ExpectImpl {
 // ---------------------------------------------------------------- stats
 
 type c20Printed struct {
-	Q1x4   int64 `json:"q1x4"`
-	Medx4  int64 `json:"medx4"`
-	Q3x4   int64 `json:"q3x4"`
-	IQRx4  int64 `json:"iqrx4"`
-	LFx4   int64 `json:"lfx4"`
-	UFx4   int64 `json:"ufx4"`
-	Lowest int64 `json:"lowest"`
-	LowN   int64 `json:"low_n"`
+	Q1x4    int64 `json:"q1x4"`
+	Medx4   int64 `json:"medx4"`
+	Q3x4    int64 `json:"q3x4"`
+	IQRx4   int64 `json:"iqrx4"`
+	LFx4    int64 `json:"lfx4"`
+	UFx4    int64 `json:"ufx4"`
+	Lowest  int64 `json:"lowest"`
+	LowN    int64 `json:"low_n"`
 	Highest int64 `json:"highest"`
-	HighN  int64 `json:"high_n"`
+	HighN   int64 `json:"high_n"`
 }
 type c20StatsImpl struct {
 	Panic    string     `json:"panic"`
@@ -352,11 +354,19 @@ type c20TrackImpl struct {
 	Early   bool             `json:"early"` // verdict already taken before anything was registered
 	Leak    bool             `json:"leak"`  // bubble ended with blocked goroutines (the renderer was never stopped)
 	Lines   []c20TrackerLine `json:"lines"`
+	// filled by the parent when the scenario ran in a child of the race build
+	Races        int      `json:"races"`
+	RaceSites    []string `json:"race_sites"`
+	RacesIgnored []string `json:"races_ignored"`
+	RaceBuild    bool     `json:"race_build"`
+	Crash        string   `json:"crash"`
 }
 
 // c20RunTrack scripts the real ProgressTelemetry in virtual time, in the order
 // cmd/simulator/main.go uses it: Start, (preparation time), Register…, increments, Close,
 // AllProgressComplete.  Harness operations stay off the 100 ms tick grid.
+var c20LastTrack c20TrackImpl
+
 func c20RunTrack(t *testing.T, in c20Input) (impl c20TrackImpl) {
 	impl.Lines = []c20TrackerLine{}
 	defer func() {
@@ -435,6 +445,7 @@ func c20RunTrack(t *testing.T, in c20Input) (impl c20TrackImpl) {
 				impl.Lines = append(impl.Lines, c20TrackerLine{Msg: strings.TrimSpace(m[1]), State: st, Value: m[3]})
 			}
 		}
+		c20LastTrack = impl // for the child of the race build: a detected race ends the test with Goexit
 	})
 	return impl
 }
@@ -891,7 +902,14 @@ func c20Run(t *testing.T, in c20Input, simExe string) any {
 		synctest.Test(t, func(t *testing.T) { impl = c20RunStats(in) })
 		return impl
 	case "track":
+		if in.Race {
+			return c20RunTrackChild(in, simExe)
+		}
 		return c20RunTrack(t, in)
+	case "perform":
+		return c20RunPerform(t, in)
+	case "resave":
+		return c20RunResave(in)
 	case "transmit":
 		return c20RunTransmit(in, simExe, in.Race)
 	case "sim":
@@ -922,20 +940,6 @@ func c20PlanInput(kind, name string, p config.SimulationPlan, withGenerated bool
 		}
 	}
 	return in, nil
-}
-
-func c20RaceExe(t *testing.T) string {
-	if os.Getenv("C20_NO_RACE") != "" {
-		return ""
-	}
-	exe := filepath.Join(os.TempDir(), fmt.Sprintf("c20race.%d.test", os.Getpid()))
-	cmd := exec.Command("go1.26.8", "test", "-c", "-race", "-tags", "verif", "-o", exe, ".")
-	cmd.Env = append(os.Environ(), "GOFLAGS=-mod=mod", "GOPROXY=off", "GOSUMDB=off", "GOTOOLCHAIN=local")
-	if out, err := cmd.CombinedOutput(); err != nil {
-		t.Logf("race build not available: %v\n%s", err, c20Tail(string(out), 600))
-		return ""
-	}
-	return exe
 }
 
 func TestC20(t *testing.T) {
@@ -969,7 +973,7 @@ func TestC20(t *testing.T) {
 	r := NewRng(seed())
 
 	// (1) save → load: the shipped plans, then generated ones
-	shipped, _ := filepath.Glob("/repo/tools/simulator/plans/*.json")
+	shipped, _ := filepath.Glob(filepath.Join(c20RepoDir(), "tools/simulator/plans/*.json"))
 	sort.Strings(shipped)
 	var shippedPlans []config.SimulationPlan
 	for _, f := range shipped {
@@ -1041,6 +1045,27 @@ func TestC20(t *testing.T) {
 		}
 		emit("gen", in, self)
 	}
+	// the real transmit loader wired to the real telemetry: forced performs around the expected count
+	for i, n := 0, tierN(250, 4000); i < n; i++ {
+		in, err := c20GenPerform(r)
+		if err != nil {
+			t.Fatalf("generated plan does not generate: %v", err)
+		}
+		emit("gen", in, self)
+	}
+	// save → save → load through the real output path, both into one directory
+	for i, n := 0, tierN(150, 2500); i < n; i++ {
+		a := c20GenCodecPlan(r)
+		var b config.SimulationPlan
+		switch r.Intn(3) {
+		case 0:
+			b = c20GenCodecPlan(r)
+		default:
+			b = c20Shrink(r, a)
+		}
+		ca, cb := c20PlanToCanon(a), c20PlanToCanon(b)
+		emit("gen", c20Input{Kind: "resave", Plan: &ca, Plan2: &cb}, self)
+	}
 	// the transmit loader under concurrent Transmit calls (un-timed, child process)
 	stress := []c20Input{
 		{Kind: "transmit", Rounds: tierN(2500, 12000), K: 8, PerReport: 1},
@@ -1060,7 +1085,22 @@ func TestC20(t *testing.T) {
 		}
 		sims = append(sims, simCase{in, self})
 	}
-	nGen := tierN(4, 34) // with the three shipped plans, the corpus witness and (thorough) two race-build runs: 8 / 40 simulations
+	{ // a plan that expects no perform but whose upkeeps are performed: the verdict must be failure
+		in, err := c20PlanInput("sim", "negative-with-perform", c20NegativePerformPlan(), true)
+		if err != nil {
+			t.Fatal(err)
+		}
+		sims = append(sims, simCase{in, self})
+	}
+	negIdx := len(sims) - 1
+	{ // a transmit after the last block (never included): the chart, the summary and the verdict must cope
+		in, err := c20PlanInput("sim", "late-transmit", c20LateTransmitPlan(), true)
+		if err != nil {
+			t.Fatal(err)
+		}
+		sims = append(sims, simCase{in, self})
+	}
+	nGen := tierN(2, 31) // with the three shipped plans, the corpus witness, the negative and the late-transmit plan and (thorough) three race-build runs: 8 / 40 simulations
 	for i := 0; i < nGen; i++ {
 		p := c20GenRunnablePlan(r, true)
 		in, err := c20PlanInput("sim", fmt.Sprintf("gen%d", i), p, true)
@@ -1071,9 +1111,9 @@ func TestC20(t *testing.T) {
 	}
 	raceExe := ""
 	if thorough() {
-		if raceExe = c20RaceExe(t); raceExe != "" {
+		if raceExe = c20RaceExeFor(t); raceExe != "" {
 			defer os.Remove(raceExe)
-			for _, k := range []int{0, 2} { // only_log_trigger.json and simplan_fast_check.json under the race detector
+			for _, k := range []int{0, 2, negIdx} { // only_log_trigger.json, simplan_fast_check.json and the failing negative plan under the race detector
 				in := sims[k].in
 				in.Race = true
 				sims = append(sims, simCase{in, raceExe})
@@ -1085,6 +1125,24 @@ func TestC20(t *testing.T) {
 	}
 	for _, in := range stress {
 		sims = append(sims, simCase{in, self})
+	}
+	if raceExe != "" {
+		// failing verdicts with several incomplete trackers, under the race detector
+		mk := func(close int, trs ...c20Tracker) c20Input {
+			for i := range trs {
+				if trs[i].Incs == nil {
+					trs[i].Incs = []c20Inc{}
+				}
+			}
+			return c20Input{Kind: "track", CloseMs: close, Trackers: trs, Race: true}
+		}
+		for _, in := range []c20Input{
+			mk(1537, c20Tracker{Total: 5}, c20Tracker{Total: 1}, c20Tracker{Total: 12, Incs: []c20Inc{{AtMs: 237, N: 12}}}, c20Tracker{Total: 1}, c20Tracker{Total: 80, Incs: []c20Inc{{AtMs: 437, N: 80}}}),
+			mk(1537, c20Tracker{Total: 0, Incs: []c20Inc{{AtMs: 237, N: 1}}}, c20Tracker{Total: 0, Incs: []c20Inc{{AtMs: 237, N: 2}}}, c20Tracker{Total: 3}),
+			mk(1537, c20Tracker{Total: 2, Incs: []c20Inc{{AtMs: 237, N: 2}}}, c20Tracker{Total: 0}),
+		} {
+			sims = append(sims, simCase{in, raceExe})
+		}
 	}
 	if raceExe != "" {
 		sims = append(sims, simCase{c20Input{Kind: "transmit", Rounds: 1500, K: 8, PerReport: 1, Race: true}, raceExe})
